@@ -1975,3 +1975,149 @@ Proof.
   split; [unfold demo_inflight; apply sched_valid, reachable_valid, valid_st0|].
   repeat split; vm_compute; reflexivity.
 Qed.
+
+(* ====================================================================================================== *)
+(* ---------- a call running alone is the sequential function (the two halves of the model agree) ---------- *)
+Inductive solo_steps (K : consts) : st * astate -> st * astate -> Prop :=
+| solo_refl x : solo_steps K x x
+| solo_cons s a z : solo_steps K (astep K s a) z -> solo_steps K (s, a) z.
+
+Lemma solo_trans K x y z : solo_steps K x y -> solo_steps K y z -> solo_steps K x z.
+Proof. induction 1 as [|s a y' H IH]; intros H2; [exact H2|]. apply solo_cons, IH, H2. Qed.
+
+(* run_cut = its read half followed by its write half *)
+Lemma run_cut_split K snap stride s p :
+  run_cut K snap stride s p =
+  match cut_read K snap s p with
+  | Err e => Err e
+  | Ok v => let '(s1, a) := put_art s v in
+            let s2 := append s1 (BCkpt (rule_stride stride) a (pl_seq p) (Some (pl_mid p))) in
+            Ok (s2, {| cr_ck := last_id s2; cr_art := a; cr_seq := pl_seq p; cr_mid := pl_mid p |})
+  end.
+Proof.
+  unfold run_cut, cut_read. destruct (select_base K (log s) snap (pl_seq p)) as [b base_to].
+  assert (Hfin : forall base bootstrap note used,
+    match nth_error (msg_full snap) (upper_bound (msg_full snap) (pl_seq p) - 1) with
+    | None => Err 20
+    | Some (ls, lid, _) =>
+      if (ls =? pl_seq p) && (lid =? pl_mid p) then
+        let slice := map snd (skipn (upper_bound (msg_full snap) (if (bootstrap : bool) then 0 else base_to))
+                                    (firstn (upper_bound (msg_full snap) (pl_seq p)) (msg_full snap))) in
+        let '(s1, a) := put_art s {| su_to_seq := pl_seq p; su_to_mid := Some (pl_mid p); su_base := base;
+                                     su_note := note; su_kind := 2; su_slice := slice; su_base_used := used;
+                                     su_present := true |} in
+        let s2 := append s1 (BCkpt (rule_stride stride) a (pl_seq p) (Some (pl_mid p))) in
+        Ok (s2, {| cr_ck := last_id s2; cr_art := a; cr_seq := pl_seq p; cr_mid := pl_mid p |})
+      else Err 21
+    end =
+    match
+      match nth_error (msg_full snap) (upper_bound (msg_full snap) (pl_seq p) - 1) with
+      | None => Err 20
+      | Some (ls, lid, _) =>
+        if (ls =? pl_seq p) && (lid =? pl_mid p) then
+          Ok {| su_to_seq := pl_seq p; su_to_mid := Some (pl_mid p); su_base := base; su_note := note; su_kind := 2;
+                su_slice := map snd (skipn (upper_bound (msg_full snap) (if (bootstrap : bool) then 0 else base_to))
+                                           (firstn (upper_bound (msg_full snap) (pl_seq p)) (msg_full snap)));
+                su_base_used := used; su_present := true |}
+        else Err 21
+      end
+    with
+    | Err e => Err e
+    | Ok v => let '(s1, a) := put_art s v in
+              let s2 := append s1 (BCkpt (rule_stride stride) a (pl_seq p) (Some (pl_mid p))) in
+              Ok (s2, {| cr_ck := last_id s2; cr_art := a; cr_seq := pl_seq p; cr_mid := pl_mid p |})
+    end).
+  { intros base bootstrap note used.
+    destruct (nth_error (msg_full snap) (upper_bound (msg_full snap) (pl_seq p) - 1)) as [[[ls lid] x]|]; [|reflexivity].
+    destruct ((ls =? pl_seq p) && (lid =? pl_mid p)); reflexivity. }
+  destruct (option_map ck_art b) as [a|]; [|exact (Hfin None true 0 false)].
+  destruct (art_read s a) as [w|]; [|exact (Hfin (Some a) true 2 false)].
+  destruct (su_kind w =? 1); [exact (Hfin (Some a) true 1 false) | exact (Hfin (Some a) false 0 true)].
+Qed.
+
+(* the job loop of an actor = run_cuts followed by job_ended *)
+Lemma solo_job K c j snap : forall todo s made,
+  exists resp,
+    solo_steps K (s, ACut c j snap todo made)
+      (let '(sn, made', err) := run_cuts K snap (c_stride c) s todo made in
+       (append sn (BJobEnded j (match err with None => 0 | Some _ => 1 end) made'), ADone resp)).
+Proof.
+  induction todo as [|p rest IH]; intros s made.
+  - cbn [run_cuts]. eexists. apply solo_cons. unfold astep. cbn [astep_gen]. apply solo_cons. unfold astep. cbn [astep_gen].
+    apply solo_refl.
+  - cbn [run_cuts]. rewrite run_cut_split. destruct (cut_read K snap s p) as [v|e] eqn:E.
+    + cbv beta iota zeta delta [put_art].
+      set (s2 := append {| log := log s; arts := arts s ++ [(fresh_art s, v)] |}
+                        (BCkpt (rule_stride (c_stride c)) (fresh_art s) (pl_seq p) (Some (pl_mid p)))).
+      destruct (IH s2 (made ++ [{| cr_ck := last_id s2; cr_art := fresh_art s; cr_seq := pl_seq p; cr_mid := pl_mid p |}]))
+        as [resp Hs].
+      exists resp. apply solo_cons. unfold astep. cbn [astep_gen]. rewrite E.
+      apply solo_cons. unfold astep. cbn [astep_gen]. cbv beta iota zeta delta [put_art]. exact Hs.
+    + eexists. apply solo_cons. unfold astep. cbn [astep_gen]. rewrite E.
+      apply solo_cons. unfold astep. cbn [astep_gen]. apply solo_refl.
+Qed.
+
+Theorem solo_auto_is_auto K c s :
+  c_sched c = false -> c_stride c <> 0 -> clamp (k_maxnew_lo K) (k_maxnew_hi K) (c_maxnew c) = c_maxnew c ->
+  exists resp, solo_steps K (s, AStart c)
+                 (fst (auto K (Some (c_stride c)) (Some (c_maxnew c)) None s), ADone resp).
+Proof.
+  intros Hsch Hs Hm. unfold auto. cbn [opt_or opt_orb]. apply N.eqb_neq in Hs. rewrite Hs, Hm. unfold auto_spawn.
+  destruct (plan_cuts K (c_stride c) (c_maxnew c) (log s)) as [|p0 pr] eqn:Ep.
+  - cbn [ar_job fst]. eexists. apply solo_cons. unfold astep. cbn [astep_gen]. rewrite Hsch.
+    apply solo_cons. unfold astep. cbn [astep_gen]. rewrite Ep. apply solo_refl.
+  - rewrite <- Ep. cbn [ar_job ar_planned].
+    set (planned := plan_cuts K (c_stride c) (c_maxnew c) (log s)) in *.
+    set (j := fresh_job (log s)). set (s1 := append s (BJobSpawned j planned (c_stride c))).
+    destruct (solo_job K c j (log s1) (plan_sort planned) s1 []) as [resp Hj].
+    unfold run_job.
+    destruct (run_cuts K (log s1) (c_stride c) s1 (plan_sort planned) []) as [[sn made'] err]. cbn [fst].
+    exists resp.
+    apply solo_cons. unfold astep. cbn [astep_gen]. rewrite Hsch.
+    apply solo_cons. unfold astep. cbn [astep_gen]. fold planned. rewrite Ep. rewrite <- Ep.
+    apply solo_cons. unfold astep. cbn [astep_gen]. rewrite Hsch. fold j. fold s1.
+    apply solo_cons. unfold astep. cbn [astep_gen]. exact Hj.
+Qed.
+
+Theorem solo_sched_is_sched K c s :
+  c_sched c = true -> c_stride c <> 0 -> clamp (k_maxnew_lo K) (k_maxnew_hi K) (c_maxnew c) = c_maxnew c ->
+  exists resp, solo_steps K (s, AStart c)
+                 (fst (sched K (Some (c_stride c)) (Some (c_maxnew c)) (Some (c_block c)) (Some (c_exec c)) None s), ADone resp).
+Proof.
+  intros Hsch Hs Hm. unfold sched. cbn [opt_or opt_orb]. apply N.eqb_neq in Hs. rewrite Hs, Hm.
+  destruct (plan_cuts K (c_stride c) (c_maxnew c) (log s)) as [|p0 pr] eqn:Ep.
+  - cbn [fst]. eexists. apply solo_cons. unfold astep. cbn [astep_gen]. rewrite Hsch, Ep. apply solo_refl.
+  - rewrite <- Ep. set (planned := plan_cuts K (c_stride c) (c_maxnew c) (log s)) in *.
+    destruct (if c_block c then find_inflight K (log s) else None) as [j0|] eqn:Ei.
+    + cbn [fst]. eexists.
+      apply solo_cons. unfold astep. cbn [astep_gen]. rewrite Hsch. fold planned. rewrite Ep. rewrite <- Ep.
+      apply solo_cons. unfold astep. cbn [astep_gen]. rewrite Ei.
+      apply solo_cons. unfold astep. cbn [astep_gen]. unfold decided_body. apply solo_refl.
+    + unfold auto_spawn. fold planned. rewrite Ep. rewrite <- Ep. cbn [ar_job].
+      set (j := fresh_job (log s)). set (s1 := append s (BJobSpawned j planned (c_stride c))).
+      set (s2 := append s1 (BDecided 3 (Some j) planned (c_stride c) (c_maxnew c) (c_block c) (c_exec c) (nlen (msgs (log s))))).
+      destruct (c_exec c) eqn:Ex.
+      * destruct (solo_job K c j (log s2) (plan_sort planned) s2 []) as [resp Hj].
+        unfold run_job.
+        destruct (run_cuts K (log s2) (c_stride c) s2 (plan_sort planned) []) as [[sn made'] err]. cbn [fst].
+        exists resp.
+        apply solo_cons. unfold astep. cbn [astep_gen]. rewrite Hsch. fold planned. rewrite Ep. rewrite <- Ep.
+        apply solo_cons. unfold astep. cbn [astep_gen]. rewrite Ei.
+        apply solo_cons. unfold astep. cbn [astep_gen]. fold planned. rewrite Ep. rewrite <- Ep.
+        apply solo_cons. unfold astep. cbn [astep_gen]. rewrite Hsch. fold j. fold s1.
+        apply solo_cons. unfold astep. cbn [astep_gen]. unfold decided_body. rewrite Ex. fold s2.
+        apply solo_cons. unfold astep. cbn [astep_gen]. exact Hj.
+      * cbn [fst]. eexists.
+        apply solo_cons. unfold astep. cbn [astep_gen]. rewrite Hsch. fold planned. rewrite Ep. rewrite <- Ep.
+        apply solo_cons. unfold astep. cbn [astep_gen]. rewrite Ei.
+        apply solo_cons. unfold astep. cbn [astep_gen]. fold planned. rewrite Ep. rewrite <- Ep.
+        apply solo_cons. unfold astep. cbn [astep_gen]. rewrite Hsch. fold j. fold s1.
+        apply solo_cons. unfold astep. cbn [astep_gen]. unfold decided_body. rewrite Ex. fold s2.
+        apply solo_refl.
+Qed.
+
+Lemma solo_is_sys K x y : solo_steps K x y -> sys_steps K (fst x, [snd x]) (fst y, [snd y]).
+Proof.
+  induction 1 as [x|s a z H IH]; [apply sys_refl|]. cbn [fst snd] in *.
+  eapply sys_cons; [exact (sys_step_at K s [] a [])|]. cbn [app]. destruct (astep K s a). exact IH.
+Qed.
